@@ -62,6 +62,7 @@ struct World {
   bool arb = true;        // the nested op arbitrates completion vs stop() itself (like a queue removal)
   bool destroy = true;    // the receiver destroys the operation state when it is completed
   bool early = false;     // StopsEarly template argument (for the monitors only)
+  bool after_start = false;   // threads A and B become active only after start() has returned
 
   unifex::inplace_stop_source src;
   alignas(64) unsigned char storage[512];
@@ -71,6 +72,7 @@ struct World {
   // shared between the nested op and its "I/O thread" A (outside the op state, like the queue of
   // async_mutex or the shared_ptr of cancellable_test's test_sender_opstate)
   std::atomic<int> a_go{0};         // 0 = not launched, 1 = launched, 2 = op finished without launch
+  std::atomic<bool> start_done{false};
   std::atomic<bool> pending{false};
   LeafOp<Rcv>* leaf = nullptr;
 
@@ -81,6 +83,8 @@ struct World {
   int nested_starts = 0;
   int tc_true = 0;
   bool start_returned = false;
+  bool stop_returned = false;       // request_stop() has returned
+  bool stop_before_start = false;   // … before start() was called
 
   void complete(const char* kind) {
     if (op_destroyed) rt::fail("receiver completed after the operation state was destroyed");
@@ -123,6 +127,7 @@ struct LeafOp {
     if (w->op_destroyed) { rt::fail("nested start() on a destroyed operation state"); return; }
     if (w->hook_runs) rt::fail("nested start() after the stop() hook");
     if (++w->nested_starts > 1) rt::fail("nested start() twice");
+    if (w->early && w->stop_before_start) rt::fail("StopsEarly: nested start() although stop was requested before start()");
     started_ = true;
     if (w->sync) {
       if (tc(this)) unifex::set_value(std::move(rcv));
@@ -193,15 +198,18 @@ struct Ops {
     w.op_size = sizeof(OpT);
     w.destroy_fn = &destroy;
     OpT* op = ::new (static_cast<void*>(w.storage)) OpT(unifex::connect(Sender{LeafSender{}}, Rcv{&w}));
+    w.stop_before_start = w.stop_returned;
     rt::obs("start.begin");
     unifex::start(*op);
     w.start_returned = true;
     rt::obs("start.end");
+    w.start_done.store(true);
   }
 };
 
 // the nested operation's own completion source (an I/O thread, a queue pop, …)
 void thread_a(World& w) {
+  if (w.after_start) { while (!w.start_done.load()) {} }
   while (w.a_go.load() == 0) {}
   bool took;
   if (w.arb) took = w.pending.exchange(false);
@@ -214,15 +222,17 @@ void thread_a(World& w) {
 }
 
 void thread_b(World& w) {
+  if (w.after_start) { while (!w.start_done.load()) {} }
   rt::obs("stop.begin");
   w.src.request_stop();
+  w.stop_returned = true;
   rt::obs("stop.end");
 }
 
 template <bool Early>
-void run(bool sync, bool arb, bool destroy, bool with_a, bool with_b = true) {
+void run(bool sync, bool arb, bool destroy, bool with_a, bool with_b = true, bool after_start = false) {
   World w; g_w = &w;
-  w.sync = sync; w.arb = arb; w.destroy = destroy;
+  w.sync = sync; w.arb = arb; w.destroy = destroy; w.after_start = after_start;
   int ta = -1, tb = -1;
   if (with_a) ta = rt::spawn([&] { thread_a(w); });
   if (with_b) tb = rt::spawn([&] { thread_b(w); });
@@ -565,6 +575,7 @@ void run() {
               rt::obs("nested.start");
               if (w.hook_runs) rt::fail("nested start() after the stop() hook");
               if (++w.nested_starts > 1) rt::fail("nested start() twice");
+              if (w.early && w.stop_before_start) rt::fail("StopsEarly: nested start() although stop was requested before start()");
               started = true;
               g_complete = [self, &receiver] {
                 can::World& w = *can::g_w;
@@ -610,6 +621,7 @@ void run() {
   });
   int tb = rt::spawn([&] { can::thread_b(w); });
   OpT* op = ::new (static_cast<void*>(w.storage)) OpT(unifex::connect(make(), can::Rcv{&w}));
+  w.stop_before_start = w.stop_returned;
   rt::obs("start.begin");
   unifex::start(*op);
   rt::obs("start.end");
@@ -653,6 +665,9 @@ SCENARIO(c_sync)       { can::run<false>(true, true, true, false); }
 SCENARIO(c_sync_early) { can::run<true>(true, true, true, false); }
 // no stop request at all: T1 = completion source A races with the rest of start() only
 SCENARIO(c_complete_during_start) { can::run<false>(false, true, true, true, /*B*/ false); }
+// the common case: A and B become active only after start() has returned (model: CancellableAfter)
+SCENARIO(c_after_start)       { can::run<false>(false, true, true, true, true, /*after_start*/ true); }
+SCENARIO(c_noarb_after_start) { can::run<false>(false, false, false, true, true, true); }
 
 // ---- detach_on_cancel: T0 connects+starts, T1 = child's completion source A, T2 = stop requester B --
 SCENARIO(d_race)   { doc::run(/*sync*/ false, /*wait_rcv*/ false, /*A*/ true); }
